@@ -513,6 +513,14 @@ def drive_c20(ctx):
         ev = actions.peek(f, ch, tail)
         if ev is not None:
             rec.add('Peek', P, nt=True, **ev)
+    # frames around and beyond 128 KiB: whatever the encoder produces, size + 8 bytes is what the decoder takes
+    from pamqp import body as _body, commands as _commands
+    for i, n in enumerate([131063, 131064, 131065, 200000] if ctx.quick else [131063, 131064, 131065, 131072, 200000, 400000]):
+        if mine(ctx, i):
+            ev = actions.peek(_body.ContentBody(bytes(rng.getrandbits(8) for _ in range(64)) * (n // 64) + b'z' * (n % 64)), 7, b'tail')
+            rec.add('Peek', P, nt=True, **ev)
+            ev = actions.peek(_commands.Connection.StartOk(response='r' * n), 0, b'')
+            rec.add('Peek', P, nt=True, **ev)
     # the size-reading receiver on whole streams (Stream.tla, Mode = "peek")
     for _ in range(4 if ctx.quick else 100):
         stream_session(ctx, P, rng.choice([2, 5, 20]), peek=True)
